@@ -214,7 +214,7 @@ def _do_check(pid, tier, only, want_playback, P, sd, seed, t0):
     harnesses = select_harnesses(pid, tier)
     if only:
         harnesses = [h for h in harnesses if h.id in only]
-    timeout_s = int(os.environ.get("VERIF_HARNESS_TIMEOUT", "900" if tier == "quick" else "3600"))
+    timeout_s = int(os.environ.get("VERIF_HARNESS_TIMEOUT", "1500" if tier == "quick" else "3600"))
     known = load_known()
     open_known = {k["id"]: k for k in known.get("open", []) if k.get("property") == pid}
 
